@@ -13,7 +13,8 @@ PROP = "C01"
 LEVEL = "exploration"
 TIMEOUT_S = 600.0
 RULE = ("one run = seeded (flavour T/M/L/G/G-multi/G-noretrieve/sequential, n_jobs, batch_size, pre_dispatch, "
-        "return_as, managed, 1-3 calls of 0..40 tasks with virtual durations) x seeded schedule (random or PCT, "
+        "return_as, managed, 1-3 calls of 0..40 tasks with virtual durations; in 12 % of the runs a second thread calls the "
+        "same object concurrently and exactly one of the two calls may be refused) x seeded schedule (random or PCT, "
         "line/opcode pre-emption inside joblib/parallel.py and _parallel_backends.py); distinct = distinct digest "
         "of the (thread role, event kind) sequence; non-trivial = at least one context switch forced inside "
         "joblib code or more than 4 switches")
@@ -38,6 +39,14 @@ def gen_case(rng):
         n = pc.gen_n_tasks(rng, case)
         calls.append({"n": n, "dur": pc.gen_durations(rng, n)})
     case["calls"] = calls
+    if rng.random() < 0.12:
+        # a second thread calls the SAME Parallel object at about the same time: one of the two calls is refused
+        # ("already running"), the other one is an ordinary call
+        m = rng.randint(0, 6)
+        case["calls"] = calls[:1] + [{"n": m, "dur": pc.gen_durations(rng, m), "phantom": True}]
+        case["rival"] = {"delay": rng.choice([0.0, 0.0, 0.0, 0.0001, 0.003, 0.05])}
+        case["managed"] = False
+        case["drain"] = 10.0 + 2 * sum(case["calls"][1]["dur"])
     case["strategy"] = ds.draw_strategy(rng)
     case["sched_seed"] = rng.randrange(1 << 31)
     return case
@@ -53,6 +62,8 @@ def oracle(w, s):
     if v:
         return v
     case = w.case
+    if case.get("rival"):
+        return rival_oracle(w, s)
     for c, call in enumerate(case["calls"]):
         rec = w.calls[c] if c < len(w.calls) else None
         if rec is None or rec["outcome"] is None:
@@ -79,8 +90,66 @@ def oracle(w, s):
     return None
 
 
+def rival_oracle(w, s):
+    case = w.case
+    r = getattr(w, "rival", None)
+    rec = w.calls[0] if w.calls else None
+    if r is None or rec is None or rec["outcome"] is None:
+        return {"class": "no_outcome", "detail": "main %s rival %s" % (rec and rec["outcome"], r), "sig": {"what": "no_outcome"}}
+    outs = []
+    for who, c, o, vals in (("main", 0, rec["outcome"], rec["values"]), ("rival", 1, r, r.get("values"))):
+        if o["kind"] == "ok":
+            outs.append("ok")
+            want = [pc.value_of(c, i) for i in range(case["calls"][c]["n"])]
+            if list(vals) != want:
+                return {"class": "wrong_result", "detail": "two threads called one Parallel object: the %s call returned %s, expected %s" % (
+                    who, str(list(vals))[:300], str(want)[:200]), "sig": {"what": "wrong_result", "concurrent_callers": True}}
+            if sorted(w.exec[c]) != list(range(case["calls"][c]["n"])):
+                return {"class": "not_exactly_once", "detail": "two threads called one Parallel object: tasks of the %s call executed %s" % (
+                    who, sorted(w.exec[c])), "sig": {"what": "not_exactly_once", "concurrent_callers": True}}
+        elif o["kind"] == "exc" and o.get("type") == "RuntimeError" and "already running" in str(o.get("args")):
+            outs.append("refused")
+            if w.pulled[c] or w.exec[c]:
+                return {"class": "refused_call_ran", "detail": "the refused %s call took %d items and ran tasks %s" % (who, w.pulled[c], w.exec[c][:5]),
+                        "sig": {"what": "refused_call_ran"}}
+        else:
+            return {"class": "unexpected_exception", "detail": "two threads called one Parallel object: the %s call raised %s%s" % (
+                who, o.get("type"), o.get("args")), "sig": {"what": "exception", "type": o.get("type"), "concurrent_callers": True}}
+    if outs == ["refused", "refused"]:
+        return {"class": "both_refused", "detail": "both concurrent calls were refused", "sig": {"what": "both_refused"}}
+    w.probes["concurrent_callers:" + "+".join(outs)] += 1
+    if w.reentered:
+        return {"class": "iterator_reentered", "detail": str(w.flags[:3]), "sig": {"what": "iterator_reentered"}}
+    return None
+
+
 def run_case(case):
-    w, s = pc.run_parallel_case(case)
+    setup = None
+    if case.get("rival"):
+        def setup(w, s):
+            def hook(w_, s_, p, c):
+                if c != 0:
+                    return
+
+                def rival():
+                    d = case["rival"]["delay"]
+                    if d:
+                        s_.sleep(d)
+                    else:
+                        s_.yp("rival")
+                    try:
+                        out = p(pc.InputIter(w_, 1))
+                        w_.rival = {"kind": "ok", "values": list(out)}
+                    except BaseException as e:  # noqa
+                        w_.rival = pc.outcome_of_exception(e)
+                s_.spawn("rival", rival, role="rival")
+            w.call_hooks = [hook]
+
+            def wait_rival(w_, s_, p):
+                while getattr(w_, "rival", None) is None:        # (bounded by the engine's step / time budget)
+                    s_.sleep(0.5)
+            w.after_hooks = [wait_rival]
+    w, s = pc.run_parallel_case(case, setup=setup)
     v = oracle(w, s)
     return pc.base_outcome(w, s, v, sample=pc.small_trace(w))
 
@@ -88,7 +157,7 @@ def run_case(case):
 def shrink(case):
     """Simpler cases: fewer calls, fewer tasks, zero durations, simpler config."""
     calls = case["calls"]
-    if len(calls) > 1:
+    if len(calls) > 1 and not case.get("rival"):
         for k in range(len(calls)):
             c = dict(case); c["calls"] = calls[:k] + calls[k + 1:]; yield c
     for k, call in enumerate(calls):
